@@ -469,6 +469,10 @@ func (w *World) exec(l Line) (res string) {
 	case "rb":
 		needColl()
 		return w.readback(c, key, l.str("n", ""))
+	case "draw":
+		return fmt.Sprintf("r=ok cas=%d", rosmar.VerifHLCNow())
+	case "restart":
+		return w.restart(l.u64("hlc", 0))
 	case "lastcas":
 		needColl()
 		b, cc, err := rosmar.VerifLastCas(c)
@@ -823,3 +827,36 @@ func (w *World) execWuwx(c *rosmar.Collection, key string, exp uint32, l Line) s
 }
 
 var _ = sort.Strings
+
+// restart closes every handle of the (on-disk) bucket, lets the process-global clock forget what it handed out
+// (a new process starts at `hlc`), and reopens the bucket.
+func (w *World) restart(hlc uint64) string {
+	if w.kind != "disk" {
+		return "r=harness-restart-needs-disk"
+	}
+	for _, f := range w.feeds {
+		if f.term != nil {
+			safeCloseBool(f.term)
+		}
+	}
+	for _, b := range w.handles {
+		b.Close(ctx)
+	}
+	w.handles = map[string]*rosmar.Bucket{}
+	w.colls = map[string]*rosmar.Collection{}
+	w.feeds = map[string]*feedRec{}
+	rosmar.VerifResetHLC(hlc)
+	b, err := rosmar.OpenBucket(w.url, w.name, rosmar.ReOpenExisting)
+	if err != nil {
+		return "r=" + errClass(err)
+	}
+	w.handles["h0"] = b
+	rosmar.VerifStopExpiryTimer(b)
+	for _, c := range []string{"c0", "c1", "c2"} {
+		if _, err := w.openColl(c, "h0"); err != nil {
+			return "r=" + errClass(err)
+		}
+	}
+	next, _ := rosmar.VerifExpiryState(b)
+	return fmt.Sprintf("r=ok hlc=%d next=%d", rosmar.VerifHLCHighest(), next)
+}
